@@ -118,9 +118,14 @@ def gen_case(rng, i, tier):
         scenario = "plain"
 
     # --- epoch boundaries (forward time, strictly inside (0, T)), avoiding unforced coincidences
+    whole = rng.random() < 0.15 and T > 2.0      # epoch boundaries at whole numbers (written as integers in the JSON)
+
     def fresh():
         for _ in range(200):
-            b = _num(rng, grid, 0.05, T - 0.02, 16) if grid else rng.uniform(0.02 * T, 0.98 * T)
+            if whole:
+                b = float(rng.randint(1, max(1, int(T - 0.02))))
+            else:
+                b = _num(rng, grid, 0.05, T - 0.02, 16) if grid else rng.uniform(0.02 * T, 0.98 * T)
             if 0 < b < T and b not in ys and b not in xs and b not in bs:
                 return b
         return None
@@ -222,7 +227,8 @@ def gen_case(rng, i, tier):
             near = dict(tip=k, event_height=hE, displaced_by=d)
     case = dict(api=api, scenario=scenario, n=n, tree=t, tips=tips, ints=ints, m=m, times_json=times_json,
                 origin=(edge if root_edge else origin), root_edge=root_edge, times_mode=times_mode,
-                times=times, rho=rho, r=r, survival=survival, near_rho=near, **rates)
+                times=times, rho=rho, r=r, survival=survival, near_rho=near,
+                int_times=bool(whole and times_mode == "absolute" and rng.random() < 0.7), **rates)
     return case
 
 
@@ -381,8 +387,10 @@ def bdsk_json(case):
         d["origin_is_root_edge"] = True
     if case["times"] is not None:
         # both documented forms of the option: a plain list or a Parameter
-        d["times"] = list(case["times"]) if case.get("times_json") == "list" else \
-            impl.param_json("times", list(case["times"]))
+        ts = list(case["times"])
+        if case.get("int_times") and all(float(x).is_integer() for x in ts):
+            ts = [int(x) for x in ts]        # [0, 2, 5] is a legal way of writing [0.0, 2.0, 5.0]
+        d["times"] = ts if case.get("times_json") == "list" else impl.param_json("times", ts)
     if case["times_mode"] == "relative":
         d["relative_times"] = True
     if case["r"] is not None:
